@@ -324,7 +324,9 @@ func (t *Transport) handleLinkLost(addrStr string, lnk *Link) {
 	}
 	t.mtx.Unlock()
 
-	if t.handler != nil && rel {
+	// always report the loss: a link usurped by a newer session from the same
+	// address is no longer in t.links but the handler still holds it.
+	if t.handler != nil {
 		t.handler.HandleLinkLost(lnk)
 	}
 	verifhook.Event("quic.linklost.done", t, lnk, rel) // verif: the transport finished processing the loss
